@@ -37,7 +37,7 @@ func genLive(x *runner, id int, res string) liveScen {
 	switch id % 6 {
 	case 0:
 		T := r.PickI(1, 3, 5, 8)
-		iv = uint32(r.PickI(0, 1000, 2000, 700, 3000))
+		iv = uint32(r.PickI(0, 1000, 2000, 700, 3000, 1750, 1250, 9999))
 		sc.Rule = &flow.Rule{Resource: res, TokenCalculateStrategy: flow.Direct, ControlBehavior: flow.Reject, Threshold: float64(T), StatIntervalInMs: iv}
 		sc.Kind, sc.N, sc.Lo, sc.Hi = "burst", int(T)+3, int(T), int(T)
 		sc.Label = "direct + reject: exactly the threshold is admitted at one instant"
@@ -57,7 +57,7 @@ func genLive(x *runner, id int, res string) liveScen {
 		// while the warm-up reads a per-second rate, which is C11's subject, not the liveness of the statistic
 		iv = uint32(r.PickI(0, 1000))
 		sc.Rule = &flow.Rule{Resource: res, TokenCalculateStrategy: flow.WarmUp, ControlBehavior: flow.Throttling, Threshold: float64(T), WarmUpPeriodSec: p, WarmUpColdFactor: uint32(r.PickI(0, 3, 5)), StatIntervalInMs: iv}
-		sc.Kind, sc.N, sc.Lo, sc.Hi = "sustain", int(p)*4000+3000, int(T) * 9 / 10, int(T) + 1
+		sc.Kind, sc.N, sc.Lo, sc.Hi = "sustain", int(p)*4000+3000, int(T)*9/10, int(T)+1
 		sc.Label = "warm-up + throttling: under sustained demand for four warm-up periods the admitted rate reaches the threshold"
 	case 4:
 		lo, hi := r.PickI(6, 8), r.PickI(2, 3)
